@@ -48,7 +48,7 @@ def gen_array(rng):
         for _ in range(rng.randint(0, 2)):
             bits[rng.randrange(len(bits))] = rng.choice(specials)
     return {'op': 'array', 'dtype': dt, 'rows': rows, 'cols': cols, 'bits': bits,
-            'layout': rng.choice(['c', 'f', 'strided', 'bigendian']), 'storage': rng.choice(['file', 'tar', 'depth']),
+            'layout': rng.choice(['c', 'f', 'strided', 'bigendian']), 'storage': rng.choice(['file', 'tar', 'depth']), 'rewrite': rng.random() < 0.5,
             'kind': rng.choice(KINDS), 'image': rng.choice(NAMES[:8])}
 
 
@@ -119,6 +119,12 @@ def run_real(c):
                 elif c['storage'] == 'tar':
                     tp = get_feature_tar_fullpath(cls, 'T', base)
                     os.makedirs(os.path.dirname(tp), exist_ok=True)
+                    if c.get('rewrite'):
+                        # the same name was written before (re-extraction): the archive keeps both members and the
+                        # array read back must be the one written last
+                        with TarHandler(tp, 'a') as th:
+                            writer(kf.get_features_fullpath(cls, 'T', base, c['image'], th),
+                                   np.zeros((c['rows'] + 2, c['cols']), dtype=dt))
                     with TarHandler(tp, 'a') as th:
                         writer(kf.get_features_fullpath(cls, 'T', base, c['image'], th), a)
                     with TarHandler(tp, 'r') as th:
